@@ -57,8 +57,10 @@ Qed.
 Theorem encoder_and_decoder_agree ws dec M bits ranks idxs t : Forall (fun w => 0 <= w) ws -> (length ws <= 255)%nat ->
   build_table_from_weights ws = ROk (dec, M, bits, ranks, idxs) -> ht_decode t = dec -> ht_max_bits t = M ->
   exists lw codes, 1 <= lw <= M /\ enc_build_from_weights (ws ++ [lw]) = ROk codes /\
-    forall s, 0 <= s <= Z.of_nat (length ws) -> 0 < nth (Z.to_nat s) (ws ++ [lw]) 0 ->
-      code_of_dec t s = (fst (nth (Z.to_nat s) codes (0, 0)), Z.to_nat (snd (nth (Z.to_nat s) codes (0, 0)))).
+    (forall s, 0 <= s <= Z.of_nat (length ws) -> 0 < nth (Z.to_nat s) (ws ++ [lw]) 0 ->
+      code_of_dec t s = (fst (nth (Z.to_nat s) codes (0, 0)), Z.to_nat (snd (nth (Z.to_nat s) codes (0, 0))))) /\
+    (* the last weight is the one the decoder infers: its code length is the last of the decoder's *)
+    bits = map (bits_of M) (ws ++ [lw]).
 Proof.
   intros Hnn Hlen Hb Hd Hm.
   destruct (build_table_setup ws dec M bits ranks idxs Hnn Hb) as (HM & Lb & Hbits & Hr0 & Hreg & idxs0 & Li & Gi & Gr & Ea & lw & Hlw & Ebits & Hk).
@@ -88,7 +90,7 @@ Proof.
   assert (Elog : Z.log2 (kraft W) = M) by (rewrite Hk; apply Z.log2_pow2; lia).
   assert (Hpow : is_pow2z (kraft W) = true).
   { unfold is_pow2z. rewrite Elog, Hk. pose proof (Z.pow_pos_nonneg 2 M ltac:(lia) ltac:(lia)). apply andb_true_intro. split; lia. }
-  exists lw. change (ws ++ [lw]) with W. unfold enc_build_from_weights. rewrite Hpow. cbn [negb]. eexists. split; [exact Hlw|]. split; [reflexivity|].
+  exists lw. change (ws ++ [lw]) with W. unfold enc_build_from_weights. rewrite Hpow. cbn [negb]. eexists. split; [exact Hlw|]. split; [reflexivity|]. split; [|exact Eb].
   intros s Hs Hpos.
   assert (LW : length W = S (length ws)) by (unfold W; rewrite app_length; cbn [length]; lia).
   pose proof (enc_codes_closed_form W nm _ HW' ltac:(unfold enc_build_from_weights; rewrite Hpow; reflexivity) s ltac:(lia)) as EC.
